@@ -445,6 +445,17 @@ def gen_model(rng, dim=None, geo=None, classes=None, geom_mode=None, var_scale=N
 
 
 def gen_points(rng, geo, fd, n, grid=False, lon360=False):
+    """n pairwise DISTINCT points (coordinates are rounded to 4 decimals, so in 1-D two of a few thousand generated
+    point sets would coincide; coincident conditioning points with different values cannot both be honoured and belong
+    to the duplicates probe only)"""
+    for _ in range(50):
+        P = _gen_points(rng, geo, fd, n, lon360)
+        if len({tuple(c) for c in zip(*P)}) == n:
+            return P
+    return P
+
+
+def _gen_points(rng, geo, fd, n, lon360=False):
     if geo in ("latlon", "latlon_time"):
         lat = rng.uniform(-70, 70, n)
         lon = rng.uniform(-170, 170, n)
@@ -728,7 +739,7 @@ def correspond_case(ctx, drv, spec, stats, what="all"):
         elif gi is not None:
             sc = np.abs(ci) @ np.abs(Ki[:, kr.cond_no]) if kr.unbiased else 0.0
             t = post_tol(nz, graw + mval, 1e-9 * sc + 1e-300) if post else 1e-9 * sc + 1e-300
-            if not abs(float(gi) - float(gm)) <= t + 1e-9 * abs(float(gi)):
+            if not _within(float(gi), float(gm), t + 1e-9 * abs(float(gi))):
                 bad("get_mean", "get_mean differs (post_process=%s)" % post, impl=float(gi), model=float(gm))
     taom = tgt_args(kr, iso_pos, ed, True)
     fo = np.asarray(call_krige(kr, spec, only_mean=True), dtype=float).reshape(-1)
@@ -846,7 +857,7 @@ def probe_textbook(ctx, spec, stats):
     tp = post_tol(tb["nz"], tb["raw"] + mean_t, tf) + 1e-9 * np.abs(tb["field"])
     with np.errstate(all="ignore"):
         dev = np.abs(f - tb["field"])
-    if not np.all((dev <= tp) | ~inr):
+    if not np.all((dev <= tp) | (f == tb["field"]) | ~inr):
         _viol(ctx, "textbook", "post-processed field differs from denormalize(estimate + mean) + trend", spec,
               "textbook:field", impl=f, expected=tb["field"], tol=tp)
     return tb
